@@ -1,1 +1,17 @@
-import LapyVerif.Model.Poisson
+import LapyVerif.Props.C05
+import LapyVerif.Props.C01
+import LapyVerif.Bridge.Fem
+/- axiom audit of C05 -/
+#print axioms LapyVerif.Props.C05.dirichlet_exact
+#print axioms LapyVerif.Props.C05.interior_eq
+#print axioms LapyVerif.Props.C05.run_spec
+#print axioms LapyVerif.Props.C05.rhs_linear
+#print axioms LapyVerif.Props.C05.fill_eq_xfun
+#print axioms LapyVerif.Props.C05.scatter_of_mem
+#print axioms LapyVerif.Props.C05.scatter_of_not_mem
+#print axioms LapyVerif.Props.C01.stiff_form
+#print axioms LapyVerif.Props.C01.stiff_psd
+#print axioms LapyVerif.Bridge.fem_tria_A
+#print axioms LapyVerif.Bridge.fem_tria_B
+#print axioms LapyVerif.Bridge.fem_tet_A
+#print axioms LapyVerif.Bridge.fem_tet_B
